@@ -112,7 +112,7 @@ def rule_drop_visits_all(ctx):
 def rule_dealloc_callers(ctx):
     facts = ctx.facts
     cs = calls_to(facts, "nucleo", lambda t: callee(t) == "boxcar::Bucket::<T>::dealloc")
-    ctx.floor("callers of Bucket::dealloc", len(cs), 2)
+    ctx.floor("callers of Bucket::dealloc", len(cs), 1)
     for fn, bi, t in cs:
         if fn.path in (DROP, VEC + "get_or_alloc"):
             ctx.ok(site(fn, bi), "dealloc from %s" % fn.path)
